@@ -19,13 +19,12 @@ LEVEL = "model_checking"
 
 GATING = ["TableCovers", "NeverDropped", "KeepsRunning", "KeepsRunningWeak", "KeepsRunningBusOnly", "Drains",
           "UnregEthertype", "UnregNeverRuns", "OwnCounterOnly"]
-LAYOUT = 6          # one direct and one FMMU terminal, two write datagrams, ethertype != 0x88A4
 
 
 def table(ctx, tag="C22"):
     """build the programs with the real classes, let TLC compute the table, re-execute it in the kernel.
     -> (rig, entries, table path, workdir, K, cbs)"""
-    lay = FG.layouts(16)[LAYOUT]
+    lay = FG.HISTORY_LAYOUT      # one direct and one FMMU terminal, two write datagrams, ethertype != 0x88A4
     r = FG.build(lay, g=5)
     if ctx.quick:
         K, cbs = 4, [(246 + i) % 256 for i in range(20)]           # across the 255 -> 0 wrap
@@ -43,8 +42,8 @@ def table(ctx, tag="C22"):
                 his.append(dict(cb=cb, ix=ix, v=v, hi=hi))
     ff = FG.foreign_frames(r, ctx.rng, 6 if ctx.quick else 40)
     foreign = [(p, cbs[(3 * i) % len(cbs)], True) for i, (_, p) in enumerate(ff)] + \
-              [(p, cbs[(5 * i + 1) % len(cbs)], False) for i, (_, p) in enumerate(ff[:12])]
-    labels = [lab for lab, _ in ff] + [lab for lab, _ in ff[:12]]
+              [(p, cbs[(5 * i + 1) % len(cbs)], False) for i, (_, p) in enumerate(ff)]
+    labels = [lab for lab, _ in ff] + [lab for lab, _ in ff]
     entries, fverd, res = FG.run_table(ctx, r, K, cbs, his, foreign, workers=6)
     ctx.extra["table"] = dict(entries=len(entries), K=K, counter_values=len(cbs), variants=len(FG.VARIANTS),
                               program_sizes=[len(r.disp.insns), len(r.group.insns)], tlc_wall=round(res.wall, 1))
@@ -93,8 +92,10 @@ def run(ctx):
     r, entries, (foreign, fverd, labels), tpath, wd, K, cbs = table(ctx)
     ctx.rule = ("every delivery (counter byte x frame index byte within 2K of it or 0 x registered / output "
                 "enabled / write datagrams enabled) executed by TLC on the real dispatcher + group bytecode; "
-                "non-trivial = the delivery moves the counter; plus foreign frames; histories explored "
-                "breadth-first from the table")
+                "non-trivial = the delivery moves the counter; plus foreign frames and frames naming another "
+                "index (other groups, slow-path indices, indices that agree with a group number in their low 8 / 16 "
+                "/ 24 bits), each delivered until it reaches user space; histories explored breadth-first from the "
+                "table")
     for (cb, ix, v, hi), o in entries.items():
         ctx.traces += 1
         ctx.evaluated((cb, ix, v, hi), nontrivial=o["cb2"] != cb)
@@ -104,14 +105,20 @@ def run(ctx):
     # ---- frames that are none of the dispatcher's business pass unchanged; nothing is dropped ---------
     for (pkt, cb, reg), o, lab in zip(foreign, fverd, labels):
         ctx.traces += 1
-        ctx.evaluated(("foreign", bytes(pkt).hex(), cb, reg), nontrivial=o["foreign"])
+        ctx.evaluated(("foreign", bytes(pkt).hex(), cb, reg), nontrivial=o["foreign"] or o["other"])
         if not o["ok"]:
-            ctx.case_failed(dict(kind="foreign" if o["foreign"] else "not-a-group-frame", label=lab,
-                                 frame=bytes(pkt).hex(), counter=cb, registered=reg, action=o["act"],
-                                 status=o["st"], unchanged=o["same"], maps_unchanged=o["maps"]),
-                            f"{lab}: " + (f"must pass unchanged, but action {o['act']}, frame unchanged "
-                                          f"{o['same']}, maps unchanged {o['maps']}" if o["foreign"]
-                                          else f"dropped: action {o['act']} {o['st']}"))
+            kind = "foreign" if o["foreign"] else "other-index" if o["other"] else "not-a-group-frame"
+            steps = [dict(act=st["act"], ran=st["ran"], own_state_untouched=st["own"], ethertype_ok=st["etok"])
+                     for st in o["steps"]]
+            ctx.case_failed(dict(kind=kind, why=o["why"], label=lab, frame=bytes(pkt).hex(),
+                                 index=int.from_bytes(bytes(pkt[18:22]), "little") if len(pkt) >= 22 else None,
+                                 counter=cb, registered=reg, action=o["act"], status=o["st"], unchanged=o["same"],
+                                 maps_unchanged=o["maps"], deliveries=steps),
+                            f"{lab} (group {r.g} {'registered' if reg else 'not registered'}): " +
+                            (f"must pass unchanged, but action {o['act']}, frame unchanged {o['same']}, maps unchanged "
+                             f"{o['maps']}" if o["foreign"] else
+                             f"{o['why']}: deliveries {[(st['act'], 'ran' if st['ran'] else '-') for st in o['steps']]}"
+                             if o["other"] else f"dropped: action {o['act']} {o['st']}"))
     # ---- the histories ----------------------------------------------------------------------------------
     common = dict(window=ctx.quick)
     found = FG.check_invariants(ctx, wd, tpath, GATING, start_registered=True, can_unregister=True,
